@@ -4,45 +4,23 @@ import (
 	"fmt"
 	"os"
 	"path/filepath"
-	"sort"
-
-	"hapverif/world"
+	"time"
 )
 
-func ls(dir string) {
-	filepath.Walk(dir, func(path string, info os.FileInfo, err error) error {
-		if err == nil && !info.IsDir() {
-			fmt.Println("   ", path[len(dir):], info.Size())
-		}
+func main() {
+	dir, _ := os.MkdirTemp("/tmp/hv-world", "x")
+	os.MkdirAll(filepath.Join(dir, "cfg"), 0755)
+	f := filepath.Join(dir, "cfg", "a.cfg")
+	os.WriteFile(f, []byte("x"), 0644)
+	old := time.Unix(1000000, 0)
+	fmt.Println(os.Chtimes(f, old, old))
+	st, _ := os.Stat(f)
+	fmt.Println(st.ModTime(), st.ModTime().Equal(old))
+	os.WriteFile(f, []byte("y"), 0644)
+	st, _ = os.Stat(f)
+	fmt.Println(st.ModTime(), st.ModTime().Equal(old))
+	filepath.Walk(filepath.Join(dir, "cfg"), func(path string, info os.FileInfo, err error) error {
+		fmt.Println(path, err, info.Mode().IsRegular())
 		return nil
 	})
-}
-
-func main() {
-	ops := os.Args[1:]
-	opt := world.DefaultOptions()
-	opt.KeepLog = true
-	w := world.NewWorld()
-	p, err := world.NewPipeline(w, opt)
-	if err != nil {
-		panic(err)
-	}
-	defer p.Close()
-	for _, o := range append(ops, "sync") {
-		if o == "sync" {
-			_, err := p.Reconcile()
-			fmt.Println("sync err=", err, "reloads", p.Sim.Reloads, "cmds", len(p.Sim.Cmds))
-			continue
-		}
-		evs, err := w.Apply(world.Op{Text: o})
-		if err != nil {
-			panic(err)
-		}
-		p.Deliver(evs)
-	}
-	ls(p.Dir)
-	for _, l := range p.Log.Lines {
-		fmt.Println("LOG", l)
-	}
-	var _ = sort.Strings
 }
